@@ -21,6 +21,7 @@ import json
 import multiprocessing
 import os
 import random
+import signal
 import subprocess
 import sys
 import time
@@ -69,9 +70,28 @@ def _family(prop, name):
     raise InternalError('no family %s in %s' % (name, prop))
 
 
+class CaseTimeout(Exception):
+    pass
+
+
+def _on_alarm(signum, frame):
+    raise CaseTimeout()
+
+
 def safe_run_case(prop, fam, case):
+    limit = getattr(fam, 'case_timeout', 120)
     try:
-        return fam.run_case(case)
+        if limit:
+            old = signal.signal(signal.SIGALRM, _on_alarm)
+            signal.setitimer(signal.ITIMER_REAL, limit)
+        try:
+            return fam.run_case(case)
+        finally:
+            if limit:
+                signal.setitimer(signal.ITIMER_REAL, 0)
+                signal.signal(signal.SIGALRM, old)
+    except CaseTimeout:
+        return 'timeout', [('%s|%s|no-termination-within-%ds' % (prop, fam.name, limit), 'case %s' % jdump(case))], 1
     except InternalError:
         raise
     except Exception as exc:
